@@ -28,7 +28,8 @@ LEVEL_NOTE = ("Theorems are about the Gallina model Exec/SubscribeModel.v of exe
               "model is tied to /repo by running real subscriptions on a private asyncio loop on every run and "
               "comparing per-event responses with the same selection executed as a plain query on a fresh executor. "
               "Concurrent __anext__ calls on one stream are outside the model.")
-RULE = ("source streams whose only contract is async iteration (classes defining __len__, __bool__, __eq__, __hash__ = None, "
+RULE = ("payloads of abstract type (interface, union, list of interface) with consecutive events of different concrete types and "
+        "resolvers that read ResolveInfo into their result; source streams whose only contract is async iteration (classes defining __len__, __bool__, __eq__, __hash__ = None, "
         "__getattr__ with unhelpful answers; prefilled and late-filled; 0-8 events); events whose execution aborts with a non-field exception before / after field errors were registered (also "
         "inside list items) with a consumer that keeps reading; event payloads from a family (dicts carrying their failures, None, 0, '', False, True, [], {}, unrelated dicts, "
         "plain objects) at every position incl. several payload-less events in a row, under root fields that read the "
@@ -67,6 +68,13 @@ def corpus():
     out.append(_stream(["ok", "v_raise"], 1, "chan_sync", "sync", [0, 0], 0, ["len", "bool_empty"], "late"))
     out.append(_stream(["ok"], 2, "chan_async", "async", [1], 1, ["bool_false", "eq_true", "nohash", "getattr_none"], "pre"))
     out.append(_stream(["n_null", "ok", "raw_none"], 1, "chan_async", "sync", [0, 1, 0], 0, ["len"], "late"))
+    # abstract payloads with consecutive events of different concrete types at the same path, resolvers that
+    # read `info` (seeded C17-i: a ResolveInfo cached per path on the executor shared by all events)
+    out.append(_stream(["created", "deleted"], G.SEL_CHANGE, "agen", "sync", [0, 0], 0))
+    out.append(_stream(["deleted", "created", "created", "deleted"], G.SEL_ANYCHANGE, "sync", "async", [0, 1, 0, 0], 1))
+    out.append(_stream(["created", "deleted", "created_bad", "change_null", "deleted"], G.SEL_CHANGES, "async", "sync",
+                       [0, 0, 0, 0, 0], 0))
+    out.append(_stream(["deleted", "created"], G.SEL_CHANGE, "chan_async", "async", [0, 0], 0, ["len"], "late"))
     # histories: a consumer that stops after 1 of 3 events (nothing read ahead) / keeps calling after the end
     out.append(_history(["ok", "v_raise", "ok"], 1, 1, "sync", "sync", [0, 0, 0], 0))
     out.append(_history(["ok", "v_raise"], 5, 1, "agen", "async", [0, 1], 1))
@@ -138,6 +146,22 @@ def generate(rng, tier):
         variants = [rng.choice(G.RAW_NAMES + G.FALSY_RAW + ["ok", "v_raise"]) for _ in range(n)]
         cases.append(_stream(variants, rng.choice(sels + [0, 3, 4]), sources[i % 3], "async" if i % 2 else "sync",
                              [rng.choice([0, 0, 1, 2]) for _ in range(n)], rng.choice([0, 1])))
+    # abstract payloads: all sequences over {created, deleted} up to length 3 (quick) / 5, plus mixes with
+    # failing / null / ordinary events, under the three selections
+    j = 0
+    for n in range(1, 4 if quick else 6):
+        for pat in itertools.product(["created", "deleted"], repeat=n):
+            if len(set(pat)) < 2 and n > 1 and j % 2:
+                j += 1
+                continue
+            cases.append(_stream(list(pat), [G.SEL_CHANGE, G.SEL_ANYCHANGE, G.SEL_CHANGES][j % 3], sources[j % 3],
+                                 "async" if (j // 3) % 2 else "sync", [(j + i) % 2 for i in range(n)], j % 2))
+            j += 1
+    for i in range(25 if quick else 300):
+        n = rng.randint(2, 7)
+        variants = [rng.choice(G.CHANGE_NAMES + ["created", "deleted", "ok", "raw_none"]) for _ in range(n)]
+        cases.append(_stream(variants, rng.choice([G.SEL_CHANGE, G.SEL_ANYCHANGE, G.SEL_CHANGES]), sources[i % 3],
+                             "async" if i % 2 else "sync", [rng.choice([0, 0, 1]) for _ in range(n)], rng.choice([0, 1])))
     # histories: every number of __anext__ calls from 0 to n + 2 on streams of 0..4 (quick) / 0..6 events
     j = 0
     for n in range(0, 5 if quick else 7):
